@@ -33,6 +33,7 @@ func registryReplay(args []string) int {
 	sc := bufio.NewScanner(os.Stdin)
 	sc.Buffer(make([]byte, 1<<20), 1<<20)
 	n, queries, badLines := 0, 0, 0
+	nUsed, nUnused := 0, 0
 	var bad []map[string]any
 	for sc.Scan() {
 		line := strings.TrimSpace(sc.Text())
@@ -63,7 +64,12 @@ func registryReplay(args []string) int {
 		// used: the query is consulted by the checkers (Match, HasType, Empty, Contains, the *set* of GetAssociated);
 		// Len and the order / multiplicity of GetAssociated only feed message texts or nothing at all
 		failU := func(used bool, what string, exp, got any) {
-			if len(bad) < 10 {
+			if (used && nUsed < 10) || (!used && nUnused < 5) {
+				if used {
+					nUsed++
+				} else {
+					nUnused++
+				}
 				bad = append(bad, map[string]any{"history": st.H, "query": what, "expected": exp, "observed": got, "used": used})
 			}
 		}
